@@ -618,7 +618,10 @@ def _bind_attempt(case: Dict[str, Any], busy: List[bool]) -> List[Dict[str, Any]
             elif shape == "host":
                 rec["text"] = b["host"]
             elif shape == "unix":
-                rec["path"] = os.path.join(tmp, "s%d.sock" % i)
+                # (a relative path - b["host"] - is bound with the scratch directory as working directory)
+                rec["path"] = b["host"] or os.path.join(tmp, "s%d.sock" % i)
+                if b["host"] and os.path.dirname(b["host"]):
+                    os.makedirs(os.path.join(tmp, os.path.dirname(b["host"])), exist_ok=True)
                 rec["text"] = "unix:" + rec["path"]
             elif shape == "fd":
                 sock = socket.socket(AF[b["fdfam"]], type_)
@@ -636,7 +639,19 @@ def _bind_attempt(case: Dict[str, Any], busy: List[bool]) -> List[Dict[str, Any]
         inp = {"via": via, "ssl": bool(case["ssl"]), "binds": binds}
         texts = [b["text"] for b in binds]
 
+        relative = any(b["shape"] == "unix" and b["host"] for b in case["binds"])
+
         def create() -> List[socket.socket]:
+            if relative:
+                old = os.getcwd()
+                os.chdir(tmp)
+                try:
+                    return create_here()
+                finally:
+                    os.chdir(old)
+            return create_here()
+
+        def create_here() -> List[socket.socket]:
             config = hconfig.Config()
             config.bind = []
             if case["ssl"]:
@@ -775,6 +790,9 @@ def _bind_shapes(rng: random.Random) -> List[Dict[str, Any]]:
         b("hostport", "localhost", "127.0.0.1", "free"),
         b("host", lo, lo),
         b("unix", "", ""),
+        # relative paths, among them names that begin with the letters of the prefix itself
+        b("unix", "app.sock", ""), b("unix", "inbox.sock", ""), b("unix", "unix.sock", ""), b("unix", "x", ""),
+        b("unix", "run/nginx.sock", ""),
         b("fd", "", "127.0.0.1", fdfam="inet"),
         b("fd", "", "", fdfam="unix"),
     ]
